@@ -290,6 +290,8 @@ def build_harness(ctx, name, sources, extra_flags=(), libs=(), sanitize=True, st
     out = BUILD / f"h_{name}_{os.getpid()}"
     flags = [f for f in CXXFLAGS if sanitize or not f.startswith("-fsanitize") and not f.startswith("-fno-sanitize")]
     flags = [("-std=" + std) if f.startswith("-std=") else f for f in flags]
+    if os.environ.get("VERIF_IMPLCOV"):      # tools/implcov.py: which lines of the real code does the run execute?
+        flags = flags + ["--coverage", "-fprofile-update=atomic", "-DVERIF_IMPLCOV"]
     cmd = [CXX] + flags + list(extra_flags) + [f"-I{REPO}/include", f"-I{VERIF}/harness"]
     cmd += [str(s) if str(s).startswith("/") else str(VERIF / "harness" / s) for s in sources]
     cmd += ["-o", str(out)] + list(libs)
